@@ -1,26 +1,46 @@
 import Driver.PathFn
 import Driver.CoreFn
+import Driver.MemfsFn
 
-open Driver
+open Driver Rivia
 
-def handle (line : String) : String :=
+structure Sess where
+  st : Memfs.State := Memfs.init
+  env : List (Str × Str) := []
+  dead : Bool := false
+
+def handle (sess : Sess) (line : String) : String × Sess :=
   match (line.trimAscii.toString.splitOn " ") with
   | fn :: args =>
+    if fn = "new" ∨ fn = "newvfs" then
+      match args with
+      | [e] => match envOfArg e with
+        | some env => ("ok new", { st := Memfs.init, env := env, dead := false })
+        | none => ("bad-op", sess)
+      | _ => ("bad-op", sess)
+    else
     match pathFn fn args with
-    | some r => r
+    | some r => (r, sess)
     | none => match coreFn fn args with
-      | some r => r
-      | none => "bad-op"
-  | [] => "bad-op"
+      | some r => (r, sess)
+      | none =>
+        if sess.dead then ("skipped", sess)
+        else match memfsOp (envLookup sess.env) fn args sess.st with
+          | some (op, r, st') =>
+            let dead := r = "hang" ∨ r = "panic"
+            (r ++ " ## " ++ dumpState st' ++ "\t" ++ judgeCols (envLookup sess.env) sess.st st' op, { sess with st := st', dead := dead })
+          | none => ("bad-op", sess)
+  | [] => ("bad-op", sess)
 
-partial def loop (hin : IO.FS.Stream) (hout : IO.FS.Stream) : IO Unit := do
+partial def loop (hin : IO.FS.Stream) (hout : IO.FS.Stream) (sess : Sess) : IO Unit := do
   let line ← hin.getLine
   if line.isEmpty then return ()
-  hout.putStrLn (handle line)
-  loop hin hout
+  let (r, sess') := handle sess line
+  hout.putStrLn r
+  loop hin hout sess'
 
 def main : IO Unit := do
   let hin ← IO.getStdin
   let hout ← IO.getStdout
-  loop hin hout
+  loop hin hout {}
   hout.flush
